@@ -78,7 +78,15 @@ class Cache:
         of things that are convertable to strings.
         """
         if isinstance(arg, np.ndarray):
-            self.ahash.update(arg.view(np.uint8))
+            # The data type and the shape are part of the hash, such that
+            # arrays with identical bytes but different type or shape (or
+            # a different distribution of the same bytes over several
+            # arguments) do not share a cache entry.
+            self.ahash.update(
+                f"ndarray:{arg.dtype.str}:{arg.shape}".encode("utf-8"))
+            # non-contiguous arrays (e.g. strided views) cannot be viewed
+            self.ahash.update(
+                np.ascontiguousarray(arg).reshape(-1).view(np.uint8))
         elif isinstance(arg, list):
             [self._update_hash(a) for a in arg]
         else:
